@@ -92,10 +92,12 @@ def load_known(prop_id):
 
 
 def sig_matches(entry, sig):
-    pat = entry.get("sig")
-    if pat is None:
+    pats = entry.get("sig")
+    if pats is None:
         return False
-    return sig == pat or fnmatch.fnmatchcase(sig, pat)
+    if isinstance(pats, str):
+        pats = [pats]
+    return any(sig == pat or fnmatch.fnmatchcase(sig, pat) for pat in pats)
 
 
 def write_evidence(prop, tier, seed, res, wall, nviol, known_seen, exhaustive):
